@@ -769,7 +769,15 @@ func execC09GetReconnect(c C09Case) *Failure {
 	}
 	time.Sleep(2 * time.Millisecond) // one sender is inside its write, the others wait for the stream's lock
 	jit := 0
-	neu := StartLive(w.Srv.Handler(), "GET", "http://verif/mcp", hdr, nil, func(kind string, n int) {
+	hdr2 := map[string]string{}
+	for k, v := range hdr {
+		hdr2[k] = v
+	}
+	if c.Writers%2 == 1 {
+		// the client resumes: the server announces the resumption on the new stream while senders are already writing to it
+		hdr2["Last-Event-Id"] = "evt-1-1"
+	}
+	neu := StartLive(w.Srv.Handler(), "GET", "http://verif/mcp", hdr2, nil, func(kind string, n int) {
 		if len(c.Jitter) > 0 {
 			jit++
 			time.Sleep(time.Duration(c.Jitter[jit%len(c.Jitter)]) * 20 * time.Microsecond)
@@ -796,12 +804,16 @@ func execC09GetReconnect(c C09Case) *Failure {
 	for si, lr := range []*LiveResp{old, neu} {
 		for i, e := range lr.Events() {
 			var m struct {
+				Method string `json:"method"`
 				Params struct {
 					Nonce string `json:"nonce"`
 				} `json:"params"`
 			}
-			if err := json.Unmarshal([]byte(e.Data), &m); err != nil || m.Params.Nonce == "" {
+			if err := json.Unmarshal([]byte(e.Data), &m); err != nil || (m.Params.Nonce == "" && m.Method != "stream/resumed") {
 				return Failf("C09/get-stream/torn-event", "%s: event %d of stream %d does not parse on its own (%v): %.200q", where, i, si+1, err, e.Data)
+			}
+			if m.Method == "stream/resumed" {
+				continue
 			}
 			seen[m.Params.Nonce]++
 		}
